@@ -161,8 +161,20 @@ def sany(path):
     return r.returncode == 0 and "Semantic errors" not in r.stdout and "***Parse Error***" not in r.stdout, r.stdout
 
 
+class TSet(list):
+    """A list rendered as a TLA+ set (elements may be unhashable dicts)."""
+
+
+class Raw(str):
+    """A string rendered verbatim as a TLA+ expression."""
+
+
 def tla_value(v):
-    """Python value -> TLA+ expression (dict=record, list=sequence, set/frozenset=set, bool, int, str)."""
+    """Python value -> TLA+ expression (dict=record, list=sequence, set/frozenset/TSet=set, bool, int, str)."""
+    if isinstance(v, Raw):
+        return str(v)
+    if isinstance(v, TSet):
+        return "{" + ", ".join(tla_value(x) for x in v) + "}"
     if isinstance(v, bool):
         return "TRUE" if v else "FALSE"
     if isinstance(v, int):
